@@ -190,8 +190,12 @@ func EncodeWithColor(data []byte, minECCPercent int, userSpecifiedLayers int, co
 			}
 		}
 	}
-	messageBits := generateCheckWords(stuffedBits, TotalBitsInLayer, wordSize)
 	messageSizeInWords := stuffedBits.Len() / wordSize
+	if messageSizeInWords < 1 {
+		// the mode message stores the number of data words minus one
+		return nil, fmt.Errorf("No data to encode")
+	}
+	messageBits := generateCheckWords(stuffedBits, TotalBitsInLayer, wordSize)
 	modeMessage := generateModeMessage(compact, layers, messageSizeInWords)
 
 	// allocate symbol
